@@ -19,6 +19,7 @@ EXPLANATION = (
     "time_from_underlying(underlying conversion). OVL-5: time_from_underlying = roclock_time + shift + "
     "(roclock_time - last_sync) * ppm / 10^6 as a linear form over its four inputs, and now() = "
     "time_from_underlying(roclock.now())."
+    " OVL-4 also covers wrappers (SharedClock<OverlayClock<..>>): they must convert through the overlay's own port_timestamp_to_time, never through underlying()."
 )
 NOT_DECIDED = "the numeric value of the rate (floating point rounding of elapsed * ppm / 10^6)"
 
